@@ -353,8 +353,16 @@ impl Database {
         drop(file_manager_guard);
 
         if self.shared.group_commit_queue.is_enabled() {
-            match self.shared.group_commit_queue.submit_and_wait(payload) {
-                Ok(_batch_id) => {
+            match self
+                .shared
+                .group_commit_queue
+                .submit_and_wait_for_role(payload)
+            {
+                // Already written and completed by another leader: nothing to flush. Taking
+                // the pending batch here would steal the payload of the leader elected in
+                // the meantime, which would then acknowledge its commit before it is logged.
+                Ok((_batch_id, false)) => {}
+                Ok((_batch_id, true)) => {
                     if let Some(pending_commits) = self.shared.group_commit_queue.take_pending() {
                         let result = self.execute_group_wal_flush(&pending_commits);
                         match &result {
